@@ -69,6 +69,19 @@ def run(prop, tier):
                 rep.violation({"kind": "stress", "variant": vname, "program": nm}, {"cmd": "lua-run", "variant": vname, "src": src, "observed": strip(o), "why": bad})
         cov["variants"].append({"variant": vname, "programs": len(cases), "nonconforming": nbad})
         log("[%s] variant %s: %d programs, %d nonconforming" % (prop, vname, len(cases), nbad))
+    if prop == "C14":
+        # finalisers and releases under every build (the safepool tag selects the other finaliser-pool implementation):
+        # GC scripts from GCGen.tla (incl. re-marking), events validated by TLC against GCTrace.tla per build
+        import gcfin
+        glines = []
+        run_tlc("GCGen", "GCGenQ.cfg", timeout=900, on_line=glines.append)
+        glines = [l for l in glines if len(l["h"]) >= 4]
+        glines = rng.sample(glines, min(len(glines), 500 if tier == "quick" else 4000)) + gcfin.stress_scripts(rng, 6 if tier == "quick" else 60)
+        for vname, drv, extra in variants:
+            use = glines if vname != "noquotas" else [l for l in glines if not any(a["a"] == "enter" for a in l["h"])]   # no runtime.callcontext without quotas
+            rej = gcfin.run_scripts(rep, drv, use, "gc-scripts@" + vname, extra_sig={"variant": vname})
+            cov["variants"].append({"variant": vname, "gc_scripts": len(glines), "rejected": rej})
+            log("[%s] variant %s: %d GC scripts, %d traces rejected" % (prop, vname, len(glines), rej))
     cov["reference_nonconforming_excluded"] = len(skip)
     if len(skip) > len(items) // 5:
         raise Infra("the reference variant deviates from the specification on %d of %d programs" % (len(skip), len(items)))
